@@ -9,6 +9,7 @@ import (
 	"net"
 	"sort"
 	"strings"
+	"sync"
 	"time"
 
 	"github.com/gocql/gocql"
@@ -88,10 +89,73 @@ func ConnName(c *gocql.Conn) string {
 	return "?"
 }
 
+// waiters tracks, per run, the requests that have been written and whose callers wait for
+// the response inside the driver (between the yield points exec.afterWrite and the four
+// ways out of the wait). It is fed by the yield hook, so it costs nothing without it.
+type waiters struct {
+	mu sync.Mutex
+	m  map[*gocql.Conn]map[int]bool
+}
+
+var curWaiters *waiters
+
 // InstallHooks routes the driver's yield points to the kernel for this run.
 func InstallHooks(k *kernel.Kernel) {
+	w := &waiters{m: map[*gocql.Conn]map[int]bool{}}
+	curWaiters = w
 	gocql.VerifHook = func(point string, c *gocql.Conn, stream int) {
+		switch point {
+		case "exec.gotResp", "exec.timedOut", "exec.ctxDone", "exec.connDone":
+			w.mu.Lock()
+			delete(w.m[c], stream)
+			w.mu.Unlock()
+		}
 		k.Yield(point, fmt.Sprintf("%s/s%d", ConnName(c), stream))
+		if point == "exec.afterWrite" {
+			// (after a possible park here: from now on the caller goes on to wait)
+			w.mu.Lock()
+			if w.m[c] == nil {
+				w.m[c] = map[int]bool{}
+			}
+			w.m[c][stream] = true
+			w.mu.Unlock()
+		}
+	}
+}
+
+// CheckWaiters is an invariant for any quiescence (C06, "closing a connection unblocks
+// every waiting caller"): once the driver has closed the transport of a connection, no
+// caller is still waiting for a response on it. The driver closes the transport only after
+// it has told the registered calls and cancelled the connection's context, and a woken
+// caller reaches its way out before the bubble is quiescent again, so on a correct driver
+// this holds at every quiescence, whatever is parked elsewhere.
+func CheckWaiters(k *kernel.Kernel) {
+	w := curWaiters
+	if w == nil || k.Violation() != nil {
+		return
+	}
+	w.mu.Lock()
+	defer w.mu.Unlock()
+	worst, worstIDs := "", []int(nil)
+	for c, ids := range w.m {
+		if len(ids) == 0 {
+			continue
+		}
+		sc, _ := c.VerifNetConn().(*simnet.Conn)
+		if sc == nil || !sc.ClientClosed() {
+			continue
+		}
+		if worst == "" || sc.Name < worst {
+			worst = sc.Name
+			worstIDs = worstIDs[:0]
+			for id := range ids {
+				worstIDs = append(worstIDs, id)
+			}
+		}
+	}
+	if worst != "" {
+		sort.Ints(worstIDs)
+		k.Violate("C06", "C06/caller-still-waiting-on-closed-connection", "the driver has closed connection %s, but the callers of the requests on streams %v still wait for a response on it (nothing will wake them before their own timeout)", worst, worstIDs)
 	}
 }
 
